@@ -24,3 +24,5 @@ mod c03_terminal;
 mod c04_ops;
 #[cfg(any(kani, test))]
 mod c02_cut;
+#[cfg(any(kani, test))]
+mod c07_indent;
